@@ -43,6 +43,7 @@ pub const EDIT_CLASSES: &[&str] = &[
     "make_type_reachable",
     "move_type_to_other_file",
     "delete_source_file",
+    "add_unreferenced_serde_type",
     "comment",
     "decoy_fn",
     "non_serde_type",
@@ -486,6 +487,18 @@ pub fn gen_edit(r: &mut Rng, class: &str, m: &Model) -> Option<(Model, String)> 
             let k = r.below(m2.files.len() as u64) as usize;
             m2.files[k].items.push(Item::Raw(format!("fn helper_{}() -> i32 {{\n    {}\n}}\n", nm.fresh(r, "cmd"), r.range(1, 99))));
             desc = "add a plain helper function".into();
+        }
+        "add_unreferenced_serde_type" => {
+            // a serde type nothing refers to: indexed by the analyzer, never emitted
+            let k = r.below(m2.files.len() as u64) as usize;
+            let name = nm.fresh(r, "type");
+            m2.files[k].items.push(Item::Struct(StructDef {
+                name: name.clone(),
+                fields: vec![Field { name: nm.fresh(r, "field"), ty: Ty::Prim("String".into()), public: true, rename: None, skip: false, validate: None }],
+                rename_all: None,
+                serde: true,
+            }));
+            desc = format!("add an unreferenced serde type {}", name);
         }
         "non_serde_type" => {
             let k = r.below(m2.files.len() as u64) as usize;
